@@ -16,6 +16,8 @@ use crate::schedx::{CaseInfo, Judgement};
 
 #[derive(Clone, Debug)]
 pub struct Case {
+    /// one blocking lock request may be interrupted by a signal (EINTR) in each execution
+    pub eintr: bool,
     pub openers: usize,
     pub file_exists: bool,
     pub bound: usize,
@@ -24,10 +26,11 @@ pub struct Case {
 pub fn cases(tier: Tier) -> Vec<Case> {
     let q = tier == Tier::Quick;
     vec![
-        Case { openers: 2, file_exists: true, bound: if q { 6 } else { 12 } },
-        Case { openers: 2, file_exists: false, bound: if q { 4 } else { 8 } },
-        Case { openers: 3, file_exists: true, bound: if q { 2 } else { 3 } },
-        Case { openers: 3, file_exists: false, bound: if q { 2 } else { 3 } },
+        Case { eintr: false, openers: 2, file_exists: true, bound: if q { 6 } else { 12 } },
+        Case { eintr: false, openers: 2, file_exists: false, bound: if q { 4 } else { 8 } },
+        Case { eintr: false, openers: 3, file_exists: true, bound: if q { 2 } else { 3 } },
+        Case { eintr: false, openers: 3, file_exists: false, bound: if q { 2 } else { 3 } },
+        Case { eintr: true, openers: 2, file_exists: true, bound: if q { 3 } else { 6 } },
     ]
 }
 
@@ -35,7 +38,7 @@ pub fn case_infos(tier: Tier) -> Vec<CaseInfo> {
     cases(tier)
         .iter()
         .map(|c| CaseInfo {
-            label: format!("{}openers-{}-c{}", c.openers, if c.file_exists { "existing" } else { "absent" }, c.bound),
+            label: format!("{}openers-{}{}-c{}", c.openers, if c.file_exists { "existing" } else { "absent" }, if c.eintr { "-one-EINTR" } else { "" }, c.bound),
             describe: json!({"openers": c.openers, "file": if c.file_exists { "exists (empty database, closed)" } else { "does not exist yet" }, "opener_body": "open(path); inside += 1; commit own marker; read all markers; yield; inside -= 1; close", "preemption_bound": c.bound}),
         })
         .collect()
@@ -49,6 +52,7 @@ struct Obs {
     views: Vec<(usize, Vec<usize>, Vec<usize>)>,
     closed: Vec<usize>,
     order: Vec<usize>,
+    interrupted: Vec<usize>,
 }
 
 fn markers(tx: &jammdb::Tx, n: usize) -> Result<Vec<usize>, String> {
@@ -92,6 +96,12 @@ pub fn run_one(case: &Case, path: &str, prefix: &[u8], policy: RwPolicy) -> (Exe
         bodies.push(Box::new(move |ctx: &Ctx| {
             let db = match real::guarded(|| cfg.open(&path)) {
                 Ok(Ok(db)) => db,
+                Ok(Err(jammdb::Error::Io(e))) if e.kind() == std::io::ErrorKind::Interrupted => {
+                    // a signal interrupted the wait for the lock: reporting the error (and staying
+                    // outside) is a legitimate answer
+                    obs.lock().unwrap().interrupted.push(i);
+                    return;
+                }
                 Ok(Err(e)) => {
                     obs.lock().unwrap().errors.push((i, format!("open returned {:?}", e)));
                     return;
@@ -132,7 +142,9 @@ pub fn run_one(case: &Case, path: &str, prefix: &[u8], policy: RwPolicy) -> (Exe
             obs.lock().unwrap().closed.push(i);
         }));
     }
+    crate::sched::sched().set_eintr_budget(if case.eintr { 1 } else { 0 });
     let res = run_execution(prefix, bodies, policy, true);
+    crate::sched::sched().set_eintr_budget(0);
     let mut js = vec![];
     if let Some(d) = &res.deadlock {
         js.push(Judgement { class: "deadlock".into(), detail: d.clone() });
@@ -169,6 +181,13 @@ pub fn run_one(case: &Case, path: &str, prefix: &[u8], policy: RwPolicy) -> (Exe
         }
     }
     let had_errors = !o.errors.is_empty();
+    let interrupted = o.interrupted.clone();
+    if !interrupted.is_empty() {
+        outcome.push_str(&format!("eintr{:?};", interrupted));
+        if !case.eintr {
+            js.push(Judgement { class: "open_failed".into(), detail: format!("openers {:?} got Interrupted although no signal was injected", interrupted) });
+        }
+    }
     drop(o);
     if res.deadlock.is_none() && res.diverged.is_none() && js.is_empty() && !had_errors {
         let cfg2 = cfg.clone();
@@ -181,7 +200,7 @@ pub fn run_one(case: &Case, path: &str, prefix: &[u8], policy: RwPolicy) -> (Exe
         });
         match r {
             Ok(Ok((m, chk))) => {
-                if m.len() != n {
+                if m.len() != n - interrupted.len() {
                     js.push(Judgement { class: "marker_lost".into(), detail: format!("after all openers finished the file holds markers {:?} of {}", m, n) });
                 }
                 if let Err(e) = chk {
